@@ -39,6 +39,11 @@ structure Item where
   isOpaque : Bool := false
   /-- excluded by name from Copy, Debug, Default, Hash, PartialEq (in this order) -/
   nbn : List Bool := []
+  /-- `annotations().disallow_{copy,debug,default}()` -/
+  annNoCopy : Bool := false
+  annNoDebug : Bool := false
+  annNoDefault : Bool := false
+  isPacked : Bool := false
   -- type part
   tk : TyKind := .none
   hasName : Bool := false
@@ -77,6 +82,8 @@ structure Opts where
   deriveEq : Bool := false
   allowlistRecursively : Bool := true
   untaggedUnion : Bool := true
+  implDebug : Bool := false
+  implPartialeq : Bool := false
   callbacks : Nat := 0
 deriving Repr, Inhabited
 
@@ -137,6 +144,7 @@ def addLine (g : IR) (line : String) : IR :=
         derivePartialeq := flag rest "derive_partialeq", deriveEq := flag rest "derive_eq",
         allowlistRecursively := flag rest "allowlist_recursively",
         untaggedUnion := flag rest "untagged_union",
+        implDebug := flag rest "impl_debug", implPartialeq := flag rest "impl_partialeq",
         callbacks := (kvNat rest "callbacks").getD 0 } }
   | "item" :: rest =>
     match kvNat rest "id" with
@@ -152,9 +160,13 @@ def addLine (g : IR) (line : String) : IR :=
       let cg := flag rest "codegen"
       let bl := flag rest "blocklisted"
       let op := flag rest "opaque"
+      let nc := flag rest "no_copy"
+      let nd := flag rest "no_debug"
+      let nf := flag rest "no_default"
       setItem g n fun i =>
         { i with id := n, kind := kind, parent := par, allowlisted := al, codegen := cg,
-                 blocklisted := bl, isOpaque := op, nbn := nbn }
+                 blocklisted := bl, isOpaque := op, nbn := nbn,
+                 annNoCopy := nc, annNoDebug := nd, annNoDefault := nf }
     | none => g
   | "type" :: rest =>
     match kvNat rest "id" with
@@ -166,7 +178,7 @@ def addLine (g : IR) (line : String) : IR :=
         inner := kvNat rest "inner", len := (kvNat rest "len").getD 0,
         isUnion := kv rest "ck" == some "union", fwd := flag rest "fwd",
         ownVirtual := flag rest "own_virtual", ownDtor := flag rest "own_dtor",
-        tooLargeBf := flag rest "too_large_bf",
+        tooLargeBf := flag rest "too_large_bf", isPacked := flag rest "is_packed",
         selfTparams := ((kv rest "tparams").map parseIds).getD [],
         allTparams := ((kv rest "all_tparams").map parseIds).getD [],
         bases := ((kv rest "bases").map parseBases).getD [],
